@@ -325,7 +325,9 @@ def run_driver(driver, comp, outdir, timeout=1800, cases="cases.txt", model="mod
     for i in order:
         k = loads.index(min(loads))
         w = sum(len(x) for x in blocks[i])
-        loads[k] += w * w // 1000 + w
+        # documents the model is not run on (class `huge`) only cost their size
+        nomodel = blocks[i][0].split()[-1:] == ["huge"]
+        loads[k] += w if nomodel else w * w // 1000 + w
         assign[k].append(i)
     procs = []
     for k in range(nsh):
